@@ -2500,3 +2500,497 @@ func TestGovcReplay(t *testing.T) {
 		},
 	})
 }
+
+func init() {
+	harnesses = append(harnesses, &harness{
+		name:      "HTTP/1 garbage response replay (loopback upstream answers with non-HTTP bytes and keeps the connection open)",
+		modelFree: true,
+		match: func(o *Obligation) bool {
+			return strings.HasSuffix(o.Func, "stream/http.(*activeClient).OnResetStream")
+		},
+		run: func(eng *Engine, o *Obligation) *ReplayOutcome {
+			src := `package http
+
+import (
+	"context"
+	"fmt"
+	"net"
+	"sync"
+	"testing"
+	"time"
+
+	"github.com/valyala/fasthttp"
+	"mosn.io/api"
+	v2 "mosn.io/mosn/pkg/config/v2"
+	mosnhttp "mosn.io/mosn/pkg/protocol/http"
+	"mosn.io/mosn/pkg/types"
+	"mosn.io/mosn/pkg/upstream/cluster"
+	"mosn.io/pkg/buffer"
+	"mosn.io/pkg/variable"
+)
+
+// The failed obligation says: an HTTP/1.1 upstream connection whose exchange was reset by the stream layer (the
+// response could not be parsed) is not marked to be closed, so it goes back to the idle list. Replay against a real
+// loopback upstream that answers with bytes that are not HTTP and keeps the connection open.
+type govcListener struct {
+	mu      sync.Mutex
+	resets  []types.StreamResetReason
+	destroy int
+}
+
+func (l *govcListener) OnResetStream(reason types.StreamResetReason) {
+	l.mu.Lock()
+	l.resets = append(l.resets, reason)
+	l.mu.Unlock()
+}
+
+func (l *govcListener) OnDestroyStream() {
+	l.mu.Lock()
+	l.destroy++
+	l.mu.Unlock()
+}
+
+type govcReceiver struct{}
+
+func (r *govcReceiver) OnReceive(ctx context.Context, headers api.HeaderMap, data buffer.IoBuffer, trailers api.HeaderMap) {
+}
+func (r *govcReceiver) OnDecodeError(ctx context.Context, err error, headers api.HeaderMap) {}
+
+func TestGovcReplay(t *testing.T) {
+	ln, err := net.Listen("tcp4", "127.0.0.1:0")
+	if err != nil {
+		t.Fatal(err)
+	}
+	defer ln.Close()
+	go func() {
+		for {
+			c, err := ln.Accept()
+			if err != nil {
+				return
+			}
+			go func(c net.Conn) {
+				buf := make([]byte, 4096)
+				for {
+					n, err := c.Read(buf)
+					if err != nil {
+						return
+					}
+					if n > 0 {
+						// not an HTTP response; the connection stays open
+						c.Write([]byte("THIS IS NOT HTTP\r\n\r\n"))
+					}
+				}
+			}(c)
+		}
+	}()
+	addr := ln.Addr().String()
+
+	cl := v2.Cluster{
+		Name:        "side_demo_http",
+		ClusterType: v2.SIMPLE_CLUSTER,
+		LbType:      v2.LB_ROUNDROBIN,
+		Hosts:       []v2.Host{{HostConfig: v2.HostConfig{Address: addr}}},
+	}
+	host := cluster.NewSimpleHost(cl.Hosts[0], cluster.NewCluster(cl).Snapshot().ClusterInfo())
+	pool := NewConnPool(context.Background(), host).(*connPool)
+
+	ctx := variable.NewVariableContext(context.Background())
+	_, sender, reason := pool.NewStream(ctx, &govcReceiver{})
+	if reason != "" || sender == nil {
+		fmt.Println("REPLAY-INCONCLUSIVE new stream failed", reason); return
+	}
+	l := &govcListener{}
+	sender.GetStream().AddEventListener(l)
+
+	headers := mosnhttp.RequestHeader{RequestHeader: &fasthttp.RequestHeader{}}
+	headers.SetRequestURI("/")
+	headers.SetHost("side.demo")
+	if err := sender.AppendHeaders(ctx, headers, true); err != nil {
+		t.Fatal(err)
+	}
+
+	// wait until the exchange failed
+	deadline := time.Now().Add(5 * time.Second)
+	for {
+		l.mu.Lock()
+		done := l.destroy > 0
+		l.mu.Unlock()
+		if done || time.Now().After(deadline) {
+			break
+		}
+		time.Sleep(10 * time.Millisecond)
+	}
+	l.mu.Lock()
+	t.Logf("stream resets: %v, destroyed: %d", l.resets, l.destroy)
+	if l.destroy != 1 || len(l.resets) != 1 {
+		l.mu.Unlock()
+		fmt.Println("REPLAY-INCONCLUSIVE stream not reset/destroyed once")
+		return
+	}
+	l.mu.Unlock()
+
+	pool.clientMux.Lock()
+	idle := len(pool.availableClients)
+	pool.clientMux.Unlock()
+	if idle != 0 {
+		fmt.Printf("REPLAY-CONFIRMED upstream answered with bytes that are not HTTP and kept the connection open: the stream was reset (%v), and the connection is idle in the pool again (availableClients=%d): it will serve the next request with no reader behind it\n", l.resets, idle)
+		return
+	}
+	fmt.Println("REPLAY-NOT-REPRODUCED the connection of the reset exchange was not pooled")
+}
+`
+			out, _ := runOverlayTest("pkg/stream/http", src, "^TestGovcReplay$")
+			return outcomeFromOutput(src, out)
+		},
+	})
+}
+
+func init() {
+	harnesses = append([]*harness{{
+		name:      "circuit-breaker limit change replay (limit 0 -> 1 by a cluster update while a request is in flight)",
+		modelFree: true,
+		match: func(o *Obligation) bool {
+			return (strings.HasSuffix(o.Func, "cluster.(*resource).Increase") || strings.HasSuffix(o.Func, "cluster.(*resource).Decrease")) && strings.Contains(o.Name, "counted")
+		},
+		run: func(eng *Engine, o *Obligation) *ReplayOutcome {
+			src := `package cluster
+
+import (
+	"fmt"
+	"testing"
+
+	v2 "mosn.io/mosn/pkg/config/v2"
+)
+
+// The failed obligation says: an Increase / Decrease of a circuit-breaker resource is not counted (it is skipped while
+// no limit is configured). Replay: a request is admitted while the cluster has no limit, a cluster update installs
+// max_requests = 1 (updateResourceValue, as UpdateCluster does), then the request ends.
+func TestGovcReplay(t *testing.T) {
+	rm := NewResourceManager(v2.CircuitBreakers{})
+	rm.Requests().Increase() // request admitted (no limit configured)
+	updateResourceValue(rm, NewResourceManager(v2.CircuitBreakers{Thresholds: []v2.Thresholds{{MaxRequests: 1}}}))
+	rm.Requests().Decrease() // the request ends
+	cur := rm.Requests().Cur()
+	admitted := 0
+	for i := 0; i < 5 && rm.Requests().CanCreate(); i++ {
+		rm.Requests().Increase()
+		admitted++
+	}
+	if cur != 0 || admitted != 1 {
+		fmt.Printf("REPLAY-CONFIRMED limit changed 0 -> 1 while one request was in flight: the gauge is %d when idle, and %d requests are then admitted at once under max_requests = 1\n", cur, admitted)
+		return
+	}
+	fmt.Println("REPLAY-NOT-REPRODUCED gauge back to 0, exactly one request admitted")
+}
+`
+			out, _ := runOverlayTest("pkg/upstream/cluster", src, "^TestGovcReplay$")
+			return outcomeFromOutput(src, out)
+		},
+	}}, harnesses...)
+}
+
+func init() {
+	harnesses = append([]*harness{{
+		name:      "filter-chain cursor replay (re-entry answer in a pass that cannot be re-entered, denying filter earlier in the chain)",
+		modelFree: true,
+		match: func(o *Obligation) bool {
+			return strings.HasSuffix(o.Func, "streamfilter.(*DefaultStreamFilterChainImpl).RunReceiverFilter") && strings.Contains(o.Name, "reentryOnlyWhereResumed")
+		},
+		run: func(eng *Engine, o *Obligation) *ReplayOutcome {
+			src := `package streamfilter
+
+import (
+	"context"
+	"fmt"
+	"testing"
+
+	"mosn.io/api"
+)
+
+type govcFilter struct {
+	status api.StreamFilterStatus
+	calls  int
+}
+
+func (f *govcFilter) OnDestroy()                                                {}
+func (f *govcFilter) SetReceiveFilterHandler(h api.StreamReceiverFilterHandler) {}
+func (f *govcFilter) OnReceive(ctx context.Context, headers api.HeaderMap, buf api.IoBuffer, trailers api.HeaderMap) api.StreamFilterStatus {
+	f.calls++
+	return f.status
+}
+
+// The failed obligation says: a re-match-route / re-choose-host answer given in a pass that cannot be re-entered leaves
+// the chain's cursor in the middle of the chain. Replay: chain [deny (AfterRoute, answers Stop), x (BeforeRoute, answers
+// ReMatchRoute)]; the BeforeRoute pass runs, then the AfterRoute pass: the denying filter must run.
+func TestGovcReplay(t *testing.T) {
+	bad := 0
+	for _, c := range []struct {
+		name         string
+		first        api.ReceiverFilterPhase
+		status       api.StreamFilterStatus
+	}{{"ReMatchRoute answered in the BeforeRoute pass", api.BeforeRoute, api.StreamFilterReMatchRoute}, {"ReChooseHost answered in the BeforeRoute pass", api.BeforeRoute, api.StreamFilterReChooseHost}} {
+		d := &DefaultStreamFilterChainImpl{}
+		deny := &govcFilter{status: api.StreamFilterStop}
+		x := &govcFilter{status: c.status}
+		d.AddStreamReceiverFilter(deny, api.AfterRoute)
+		d.AddStreamReceiverFilter(x, c.first)
+		d.RunReceiverFilter(context.Background(), c.first, nil, nil, nil, nil)
+		d.RunReceiverFilter(context.Background(), api.AfterRoute, nil, nil, nil, nil)
+		if deny.calls != 1 {
+			bad++
+			fmt.Printf("REPLAY-CONFIRMED %s: the AfterRoute pass started behind the denying filter (it ran %d times): the denied request goes on to the upstream\n", c.name, deny.calls)
+		}
+	}
+	if bad == 0 {
+		fmt.Println("REPLAY-NOT-REPRODUCED the denying filter ran in its pass")
+	}
+}
+`
+			out, _ := runOverlayTest("pkg/streamfilter", src, "^TestGovcReplay$")
+			return outcomeFromOutput(src, out)
+		},
+	}}, harnesses...)
+}
+
+func init() {
+	harnesses = append([]*harness{{
+		name:      "HPACK peer table size replay (peer announces SETTINGS_HEADER_TABLE_SIZE = 0, two requests, reference decoder with a 0-byte table)",
+		modelFree: true,
+		match: func(o *Obligation) bool {
+			return strings.Contains(o.Name, "peerTableSize") || strings.HasSuffix(o.Func, "hpack.(*Encoder).SetMaxDynamicTableSize")
+		},
+		run: func(eng *Engine, o *Obligation) *ReplayOutcome {
+			src := `package http2
+
+import (
+	"bytes"
+	"fmt"
+	"context"
+	"io"
+	"net/http"
+	"testing"
+
+	"mosn.io/api"
+	"mosn.io/mosn/pkg/module/http2/hpack"
+	"mosn.io/pkg/buffer"
+)
+
+// govcConn is a minimal api.Connection that records what MOSN writes.
+type govcConn struct {
+	api.Connection
+	wrote bytes.Buffer
+}
+
+func (c *govcConn) Write(bufs ...buffer.IoBuffer) error {
+	for _, b := range bufs {
+		c.wrote.Write(b.Bytes())
+	}
+	return nil
+}
+
+func (c *govcConn) State() api.ConnState { return api.ConnActive }
+
+// The failed obligation says: the client does not follow the peer's SETTINGS_HEADER_TABLE_SIZE. Replay: the peer
+// announces a decoder table of 0 bytes, MOSN sends two requests with the same custom header; a reference decoder
+// with a 0-byte table (what the peer runs) must decode both header blocks.
+func TestGovcReplay(t *testing.T) {
+	conn := &govcConn{}
+	cc := NewClientConn(conn)
+
+	// peer: "my HPACK decoder table is 0 bytes"
+	var wire bytes.Buffer
+	if err := NewFramer(&wire, nil).WriteSettings(Setting{ID: SettingHeaderTableSize, Val: 0}); err != nil {
+		t.Fatal(err)
+	}
+	f, _, err := cc.Framer.ReadFrame(context.Background(), buffer.NewIoBufferBytes(wire.Bytes()), 0)
+	if err != nil {
+		t.Fatal(err)
+	}
+	if _, _, _, _, _, err := cc.HandleFrame(context.Background(), f); err != nil {
+		t.Fatal(err)
+	}
+
+	for i := 0; i < 2; i++ {
+		req, _ := http.NewRequest("GET", "http://example.com/some/path", nil)
+		req.Header.Set("X-Custom", "custom-value")
+		if _, err := cc.WriteHeaders(context.Background(), req, "", true); err != nil {
+			t.Fatal(err)
+		}
+	}
+
+	// the peer decodes with the table size it announced
+	var got []hpack.HeaderField
+	dec := hpack.NewDecoder(0, func(hf hpack.HeaderField) { got = append(got, hf) })
+	fr := NewFramer(nil, bytes.NewReader(conn.wrote.Bytes()))
+	n := 0
+	for {
+		f, err := fr.ReadFrame()
+		if err == io.EOF {
+			break
+		}
+		if err != nil {
+			t.Fatal(err)
+		}
+		hf, ok := f.(*HeadersFrame)
+		if !ok {
+			continue
+		}
+		n++
+		got = got[:0]
+		if _, err := dec.Write(hf.HeaderBlockFragment()); err != nil {
+			fmt.Printf("REPLAY-CONFIRMED request %d: the peer (decoder table 0 bytes, as it announced) cannot decode MOSN's header block: %v\n", n, err)
+			return
+		}
+		if err := dec.Close(); err != nil {
+			t.Fatalf("request %d: %v", n, err)
+		}
+		t.Logf("request %d decoded: %v", n, got)
+	}
+	if n != 2 {
+		fmt.Println("REPLAY-INCONCLUSIVE HEADERS frames seen:", n)
+		return
+	}
+	fmt.Println("REPLAY-NOT-REPRODUCED both header blocks decode with the announced table size")
+}
+`
+			out, _ := runOverlayTest("pkg/module/http2", src, "^TestGovcReplay$")
+			return outcomeFromOutput(src, out)
+		},
+	}}, harnesses...)
+}
+
+func init() {
+	harnesses = append([]*harness{{
+		name:      "SNI index case replay (context configured with server_name Api.Example.com, ClientHello for api.example.com)",
+		modelFree: true,
+		match: func(o *Obligation) bool {
+			return strings.HasSuffix(o.Func, "mtls.(*tlsContext).buildMatch")
+		},
+		run: func(eng *Engine, o *Obligation) *ReplayOutcome {
+			src := `package mtls
+
+import (
+	"fmt"
+	"testing"
+
+	v2 "mosn.io/mosn/pkg/config/v2"
+	"mosn.io/mosn/pkg/mtls/crypto/tls"
+)
+
+func govcContext(cn string, cfg *v2.TLSConfig) (*v2.TLSConfig, error) {
+	info := &certInfo{CommonName: cn, Curve: "P256"}
+	c, err := info.CreateCertConfig()
+	if err != nil {
+		return nil, err
+	}
+	c.ServerName = cfg.ServerName
+	return c, nil
+}
+
+// The failed obligation says: the names a TLS context answers to are not indexed in lower case although they are
+// looked up in lower case. Replay: listener with a first context (no server_name) and a second one configured with
+// server_name "Api.Example.com"; a ClientHello for api.example.com must be answered with the second context's certificate.
+func TestGovcReplay(t *testing.T) {
+	first, err1 := govcContext("first", &v2.TLSConfig{})
+	second, err2 := govcContext("second", &v2.TLSConfig{ServerName: "Api.Example.com"})
+	if err1 != nil || err2 != nil {
+		fmt.Println("REPLAY-INCONCLUSIVE", err1, err2)
+		return
+	}
+	lc := &v2.Listener{}
+	lc.FilterChains = []v2.FilterChain{{TLSContexts: []v2.TLSConfig{*first, *second}}}
+	mng, err := NewTLSServerContextManager(lc)
+	if err != nil {
+		fmt.Println("REPLAY-INCONCLUSIVE", err)
+		return
+	}
+	bad := 0
+	for _, sni := range []string{"api.example.com", "Api.Example.com"} {
+		c, err := mng.(*serverContextManager).GetConfigForClient(&tls.ClientHelloInfo{ServerName: sni})
+		if err != nil || c == nil || len(c.Certificates) == 0 {
+			fmt.Println("REPLAY-INCONCLUSIVE no config", err)
+			return
+		}
+		cert, err := tls.LoadOrStoreCertificate(c.Certificates[0].Certificate[0])
+		if err != nil {
+			fmt.Println("REPLAY-INCONCLUSIVE", err)
+			return
+		}
+		if cert.Subject.CommonName != "second" {
+			bad++
+			fmt.Printf("REPLAY-CONFIRMED SNI %q: the certificate of context %q is presented although a context with server_name Api.Example.com is configured\n", sni, cert.Subject.CommonName)
+		}
+	}
+	if bad == 0 {
+		fmt.Println("REPLAY-NOT-REPRODUCED the context with the matching server_name is selected")
+	}
+}
+`
+			out, _ := runOverlayTest("pkg/mtls", src, "^TestGovcReplay$")
+			return outcomeFromOutput(src, out)
+		},
+	}}, harnesses...)
+}
+
+func init() {
+	harnesses = append([]*harness{{
+		name:      "prefix rewrite vs case-insensitive exact rule replay (route path /foo, prefix_rewrite /bar, request /FOO)",
+		modelFree: true,
+		match: func(o *Obligation) bool {
+			return strings.HasSuffix(o.Func, "router.(*RouteRuleImplBase).finalizePathHeader") && strings.Contains(o.Name, "applied")
+		},
+		run: func(eng *Engine, o *Obligation) *ReplayOutcome {
+			src := `package router
+
+import (
+	"context"
+	"fmt"
+	"testing"
+
+	v2 "mosn.io/mosn/pkg/config/v2"
+	"mosn.io/mosn/pkg/protocol"
+	"mosn.io/mosn/pkg/types"
+	"mosn.io/pkg/variable"
+)
+
+// The failed obligation says: a request that matched a route with prefix_rewrite can be forwarded without the rewrite.
+// Replay: exact path route /foo with prefix_rewrite /bar; the request path /FOO matches the route (the exact rule
+// compares case-insensitively) and must be forwarded as /bar.
+func TestGovcReplay(t *testing.T) {
+	routers, err := NewRouters(&v2.RouterConfiguration{
+		VirtualHosts: []v2.VirtualHost{{Name: "default", Domains: []string{"*"}, Routers: []v2.Router{{RouterConfig: v2.RouterConfig{
+			Match: v2.RouterMatch{Path: "/foo"},
+			Route: v2.RouteAction{RouterActionConfig: v2.RouterActionConfig{ClusterName: "c", PrefixRewrite: "/bar"}},
+		}}}}},
+	})
+	if err != nil {
+		fmt.Println("REPLAY-INCONCLUSIVE", err)
+		return
+	}
+	bad := 0
+	for _, p := range []string{"/foo", "/FOO", "/Foo"} {
+		ctx := variable.NewVariableContext(context.Background())
+		variable.SetString(ctx, types.VarPath, p)
+		headers := protocol.CommonHeader(map[string]string{})
+		rt := routers.MatchRoute(ctx, headers)
+		if rt == nil {
+			fmt.Printf("REPLAY-INCONCLUSIVE path %q does not match the route\n", p)
+			return
+		}
+		rt.RouteRule().FinalizeRequestHeaders(ctx, headers, nil)
+		got, _ := variable.GetString(ctx, types.VarPath)
+		if got != "/bar" {
+			bad++
+			fmt.Printf("REPLAY-CONFIRMED request path %q matches the route (path /foo, prefix_rewrite /bar) but is forwarded as %q\n", p, got)
+		}
+	}
+	if bad == 0 {
+		fmt.Println("REPLAY-NOT-REPRODUCED every matching request is rewritten to /bar")
+	}
+}
+`
+			out, _ := runOverlayTest("pkg/router", src, "^TestGovcReplay$")
+			return outcomeFromOutput(src, out)
+		},
+	}}, harnesses...)
+}
